@@ -38,8 +38,10 @@ class _ReprItem(str):
 PAL = [1, 1.0, True, 0, 0.0, False, -0.0, decimal.Decimal("1"), (1,), (1.0,), decimal.Decimal("1.0"), (True,),
        fractions.Fraction(1), complex(1, 0), decimal.Decimal("0"), (0,), (0.0,), (-0.0,), frozenset([0, 8]), frozenset([8, 0]),
        "a", b"a", _ReprItem("a"), "1", 2, 2.0, 10**20, 1e20, (1, "a"), (1.0, "a"), decimal.Decimal("1.00"),
-       frozenset([1]), frozenset([1.0]), frozenset([True])]
+       frozenset([1]), frozenset([1.0]), frozenset([True]),
+       "", (), b"", frozenset()]          # falsy but not None (like 0 / 0.0 / False / -0.0 / Decimal('0') above)
 assert len({repr(v) for v in PAL}) == len(PAL)
+FALSY_IDS = [i for i, v in enumerate(PAL) if not v]
 # ==-class of a palette id (dict identity: equal and hash-equal)
 PAL_CLS = [min(u for u in range(len(PAL)) if PAL[u] == PAL[v] and hash(PAL[u]) == hash(PAL[v])) for v in range(len(PAL))]
 assert all((PAL[u] == PAL[v]) == (PAL_CLS[u] == PAL_CLS[v]) for u in range(len(PAL)) for v in range(len(PAL)))
@@ -168,6 +170,24 @@ def _mk(family, cfg):
     return HyperLogLog(precision=cfg[0], seed=cfg[1])
 
 
+def feed_via_collector(sketch, adds):
+    """route `adds` = [(item, count)] into `sketch` the way an application does: as events through a real Simulation
+    into a SketchCollector entity wrapping the sketch (value and weight extracted from the event context)"""
+    from happysimulator.components.sketching.sketch_collector import SketchCollector
+    from happysimulator.core.event import Event
+    from happysimulator.core.simulation import Simulation
+    from happysimulator.core.temporal import Instant
+
+    weighted = any(c != 1 for _, c in adds)
+    col = SketchCollector("col", sketch, value_extractor=lambda e: e.context["item"],
+                          weight_extractor=(lambda e: e.context["w"]) if weighted else None)
+    sim = Simulation(end_time=Instant((len(adds) + 2) * 1000), entities=[col])
+    for i, (it, c) in enumerate(adds):
+        sim.schedule(Event(time=Instant((i + 1) * 1000), event_type="item", target=col, context={"item": it, "w": c}))
+    sim.run()
+    return col
+
+
 def _hash_row(family, sk, cfg, item):
     """the real hash values the sketch uses for `item` (same helper the sketch calls), asked of a FRESH sketch per item:
     the table must be a function of the item alone, whatever the sketch remembers of earlier calls"""
@@ -223,7 +243,10 @@ class C20(core.Property):
             "seq programs of Bloom / Count-Min / TopK run 60 % (palette) or 25 % (other kinds) in own-question mode: snapshots read the state only and membership / "
             "frequency questions are explicit `look r x` operations — a prelude of questions to the fresh sketches (lookups before inserts), questions to a merge target about "
             "what the source held, random questions, and at the end every register is asked about every item of its logical stream — so merged sketches have different "
-            "question histories; Merkle replica scripts (40 %) pass each key as a plain str, a str subclass inheriting repr or a str subclass with its own repr, changing from use to use; "
+            "question histories; a quarter of the Bloom / Count-Min / HyperLogLog / TopK cases (half with the palette) feed the stream to the sketch as events through a real Simulation into a "
+            "SketchCollector entity (value / weight extracted from the event context), palette streams then include falsy items (0, 0.0, False, -0.0, Decimal('0'), '', (), b'', frozenset()); "
+            "every Merkle diff point reads in a per-case order — root hashes first, a.diff(b) first (b only an argument, nothing of it read since its last update / remove), b.diff(a) first, or "
+            "alternating; Merkle replica scripts (40 %) pass each key as a plain str, a str subclass inheriting repr or a str subclass with its own repr, changing from use to use; "
             "Merkle family: half the cases use the plain palette (16 values distinct under == and repr), half are replica scripts over the full palette — values equal under == but serialised "
             "differently (1 / 1.0 / True / Decimal(1), 0 / 0.0 / -0.0 / False, 1.5 / Fraction(3,2), 10**20 / 1e20, (1,2) / (1.0,2.0), b'b' / bytearray(b'b'), 'v' / str subclass with its own repr, "
             "[1] / [1.0] / [True], {'n':1} / {'n':1.0}), a str subclass inheriting repr, and mutable records (lists, dicts, bytearrays) that are changed IN PLACE (object obtained with get()) and "
@@ -232,6 +255,8 @@ class C20(core.Property):
             "a case is non-trivial when it has ≥2 accepted adds (sketches) or ≥1 differing key (Merkle) or ≥1 add and ≥1 merge (seq); distinct = distinct case content")
     trusted_base = [
         "hv/props/c20.py adapters (drive the real sketch objects, canonical transcript)",
+        "collector cases: the adapter builds the Simulation, the SketchCollector (value_extractor / weight_extractor reading the event context) and the item events; the sketch is then "
+        "observed exactly like a directly fed one",
         "item identity is computed by the adapter from the palette objects themselves: serialisation (repr) for Bloom / Count-Min / HyperLogLog / reservoir, "
         "the ==-and-hash class for TopK (ident_id); the hash table of an item is asked of a FRESH sketch per item (a sketch-internal memo cannot leak into the model's table)",
         "private attributes read for state equality: BloomFilter._bits, CountMinSketch._counters, HyperLogLog._registers "
@@ -513,7 +538,21 @@ class C20(core.Property):
         used = sorted({x for x, _ in stream} | set(probes_extra))
         probes = used + [n_items + 50 + t for t in range(rng.choice([0, 1, 4]))]
         split = rng.choice([0, len(stream), rng.randint(0, len(stream)), rng.randint(0, len(stream))])
-        return {"family": fam, "kind": kind, "cfgA": cfg, "cfgB": cfgB, "stream": stream, "split": split, "probes": probes}
+        case = {"family": fam, "kind": kind, "cfgA": cfg, "cfgB": cfgB, "stream": stream, "split": split, "probes": probes}
+        if rng.random() < (0.5 if kind == "pyeq" else 0.25):
+            # the whole stream reaches sketch W as events through a Simulation into a SketchCollector entity
+            # (a collector is a sink: a rejected count would abort the run, so these streams have none)
+            case["via"] = "collector"
+            case["stream"] = [[x, c if c >= 0 else 2] for x, c in stream]
+            if kind == "pyeq" and stream and rng.random() < 0.7:
+                # make sure falsy items (0, 0.0, False, '', (), b'' …) are in the stream and among the probes
+                for _ in range(rng.choice([1, 2, 3])):
+                    f = rng.choice(FALSY_IDS)
+                    case["stream"].insert(rng.randrange(len(case["stream"]) + 1), [f, rng.choice([1, 1, 2])])
+                    if f not in case["probes"]:
+                        case["probes"].append(f)
+                case["split"] = rng.randint(0, len(case["stream"]))
+        return case
 
     @staticmethod
     def colliding_group(fam, cfg, kind, pool):
@@ -552,7 +591,19 @@ class C20(core.Property):
                 ops.append(["snap"])
         ops.append(["snap"])
         probes = sorted({x for x, _ in stream}) + [n_items + 7]
-        return {"family": "topk", "kind": rng.choice(KINDS), "k": k, "ops": ops, "probes": probes}
+        kind = rng.choice(KINDS)
+        case = {"family": "topk", "kind": kind, "k": k, "ops": ops, "probes": probes}
+        if k > 0 and rng.random() < (0.5 if kind == "pyeq" else 0.25):
+            # the adds reach the TopK as events through a Simulation into a SketchCollector entity
+            case["via"] = "collector"
+            case["ops"] = [[op[0], op[1], op[2] if op[2] >= 0 else 2] if op[0] == "add" else op for op in ops]
+            if kind == "pyeq" and rng.random() < 0.7:
+                for _ in range(rng.choice([1, 2, 3])):
+                    f = rng.choice(FALSY_IDS)
+                    case["ops"].insert(rng.randrange(len(case["ops"])), ["add", f, rng.choice([1, 2, 5])])
+                    if f not in case["probes"]:
+                        case["probes"].append(f)
+        return case
 
     def gen_reservoir(self, rng, tier):
         kA = rng.choice([1, 1, 2, 3, 4, 8])
@@ -621,7 +672,7 @@ class C20(core.Property):
                     k, v = rng.choice(src)
                     ops.append(["upd", side, k, v])
             ops.append(["diff"])
-        return {"family": "merkle", "a": a, "b": b, "ops": ops}
+        return {"family": "merkle", "a": a, "b": b, "ops": ops, "dorder": rng.choice(["eq", "ab", "ba", "alt", "alt"])}
 
     def gen_merkle_rich(self, rng, tier):
         """Replica-style scripts over the full value palette: records (lists / dicts / bytearrays)
@@ -702,6 +753,7 @@ class C20(core.Property):
             case["eqmode"] = "python"
         if rng.random() < 0.4:
             case["kspell"] = rng.randrange(1000)
+        case["dorder"] = rng.choice(["eq", "ab", "ba", "alt", "alt"])
         return case
 
     def gen_tdigest(self, rng, tier):
@@ -869,12 +921,16 @@ class C20(core.Property):
             return ["err ValueError"]
         out = []
         split = case["split"]
+        via = case.get("via") == "collector"
+        if via:
+            feed_via_collector(W, [(item_of(kind, x), c) for x, c in case["stream"]])
         for i, (x, c) in enumerate(case["stream"]):
             it = item_of(kind, x)
-            try:
-                W.add(it, c)
-            except ValueError:
-                out.append(f"adderr {i}")
+            if not via:
+                try:
+                    W.add(it, c)
+                except ValueError:
+                    out.append(f"adderr {i}")
             try:
                 (A if i < split else B).add(it, c)
             except ValueError:
@@ -909,16 +965,25 @@ class C20(core.Property):
         back = {}
         out = []
         i = 0
+        via = case.get("via") == "collector"
+        chunk = []          # adds waiting to be sent through the collector (flushed before every snapshot)
         for op in case["ops"]:
             if op[0] == "add":
                 it = item_of(kind, op[1])
                 back[it] = ident_id("topk", kind, op[1])
+                if via:
+                    chunk.append((it, op[2]))
+                    i += 1
+                    continue
                 try:
                     tk.add(it, op[2])
                 except ValueError:
                     out.append(f"adderr {i}")
                 i += 1
             else:
+                if chunk:
+                    feed_via_collector(tk, chunk)
+                    chunk = []
                 out.append(f"n {tk.item_count} thr {tk.guaranteed_threshold()} maxerr {tk.max_error()}")
                 out.append(("top " + j(f"{back[e.item]}:{e.count}:{e.error}" for e in tk.top())).rstrip())
                 for x in case["probes"]:
@@ -1015,9 +1080,34 @@ class C20(core.Property):
         def rng_str(rs):
             return j(f"{rank[r.start]}-{rank[r.end]}" for r in rs)
 
+        order = case.get("dorder", "eq")
+        count = [0]
+
         def on_diff(ta, tb):
-            eq = 1 if ta.root_hash == tb.root_hash else 0
-            return f"d ab {rng_str(ta.diff(tb))} | ba {rng_str(tb.diff(ta))} | eq {eq} | size {ta.size} {tb.size}".replace("  ", " ")
+            # what is read first at a diff point: the root hashes (forces both trees to be current), a.diff(b)
+            # (b is only an ARGUMENT: nothing of b was read since its last update / remove) or b.diff(a);
+            # "alt" alternates between the two directions from one diff point to the next
+            count[0] += 1
+            first = order if order != "alt" else ("ab" if count[0] % 2 else "ba")
+            ab = ba = eq = None
+            if first == "ab":
+                ab = ta.diff(tb)
+            elif first == "ba":
+                ba = tb.diff(ta)
+            else:
+                eq = 1 if ta.root_hash == tb.root_hash else 0
+            if first == "ba":
+                ab = ta.diff(tb)
+            elif ba is None and first == "ab":
+                pass
+            if ab is None:
+                ab = ta.diff(tb)
+            if ba is None:
+                # after a.diff(b) the argument may still be stale: ask b.diff(a) only in a second pass on fresh reads
+                ba = tb.diff(ta)
+            if eq is None:
+                eq = 1 if ta.root_hash == tb.root_hash else 0
+            return f"d ab {rng_str(ab)} | ba {rng_str(ba)} | eq {eq} | size {ta.size} {tb.size}".replace("  ", " ")
 
         return self._merkle_replay(case, on_diff)
 
